@@ -151,3 +151,47 @@ def d3_hash_implies_eq(ctx, families: Optional[Tuple[str, ...]] = None) -> None:
                           "(identity), so a restored / reloaded copy never equals the original", construct=f"{cls.name}.__eq__ missing")
     if n < 1:
         ctx.floor("D3", 99)
+
+
+def d4_paired_methods_follow_overrides(ctx, family: str, pairs: Tuple[Tuple[str, str], ...]) -> None:
+    """(I, X) are two entries to the same operation (indexed_forward_map / forward_map): a
+    class that overrides X below the class its I comes from relies on I calling `self.X(...)`;
+    an I that computes the answer some other way gives such a class two different maps."""
+    P = ctx.P
+    base = P.need_class(family)
+    n = 0
+    for iname, xname in pairs:
+        for k in P.subclasses(base, strict=False):
+            im = P.find_method(k, iname)
+            xm = P.find_method(k, xname)
+            if im is None or xm is None or im.cls is None or xm.cls is None:
+                continue
+            at_i = P.find_method(im.cls, xname)
+            if at_i is None or at_i.cls is xm.cls:
+                continue            # same X where I is defined and here: nothing overridden in between
+            n += 1
+            # I reaches self.X, directly or through other methods of self
+            seen: Set[str] = set()
+            todo = [im]
+            reaches = False
+            while todo and not reaches:
+                cur = todo.pop()
+                if cur.qualname in seen:
+                    continue
+                seen.add(cur.qualname)
+                for c in walk_local(cur.node):
+                    if isinstance(c, ast.Call) and isinstance(c.func, ast.Attribute) and isinstance(c.func.value, ast.Name) and c.func.value.id == "self":
+                        if c.func.attr == xname:
+                            reaches = True
+                            break
+                        nxt = P.find_method(k, c.func.attr)
+                        if nxt is not None and c.func.attr != iname:
+                            todo.append(nxt)
+            if reaches:
+                ctx.ok("D4", f"{k.name}: {iname} (from {im.cls.name}) goes through self.{xname}, which {xm.cls.name} overrides")
+            else:
+                ctx.violation("D4", im.node, f"{k.name} overrides {xname} (in {xm.cls.name}) but takes {iname} from {im.cls.name}, which does not call self.{xname}: callers of "
+                              f"{iname} (the bijection's parse-tree map) get {im.cls.name}'s own computation, not the map of a {k.name}",
+                              construct=f"{k.name}.{iname} bypasses {xm.cls.name}.{xname}")
+    if n < 2:
+        ctx.floor("D4", 99)
